@@ -637,6 +637,9 @@ func (u *Unit) earlyReturnContext(list []ast.Stmt, child ast.Node, isGuard func(
 		if !ok || is.Else != nil || len(is.Body.List) == 0 || isGuard(is.Cond) {
 			continue
 		}
+		if u.isConjWrapper(is) && u.earlyWrappers[is] {
+			continue // merged into the checks that follow as a conjunct
+		}
 		switch last := is.Body.List[len(is.Body.List)-1].(type) {
 		case *ast.ReturnStmt:
 		case *ast.BranchStmt:
